@@ -12,6 +12,7 @@ import (
 	"strings"
 	"time"
 
+	"github.com/zitadel/saml/pkg/provider"
 	"github.com/zitadel/saml/pkg/provider/serviceprovider"
 
 	"verif/harness/core"
@@ -557,6 +558,89 @@ func c09Metadata(r *core.Run, idx int, rng *rand.Rand) {
 	}
 }
 
+// ---------- requests after a storage fault, tiny payloads ----------
+
+// c09AfterFault serves, on ONE provider, a request during which a storage operation fails and then the
+// same request again without fault (and a metadata request): none of them may panic.
+func c09AfterFault(r *core.Run, idx int, rng *rand.Rand) {
+	const wl = "requests_after_storage_faults"
+	scs := c10Scenarios()
+	sc := &scs[idx%len(scs)]
+	o := sc.Opts
+	if rng.Intn(2) == 0 {
+		o.Org = &provider.Organisation{Name: "O", DisplayName: "D", URL: "https://o.example"}
+		o.Contact = &provider.ContactPerson{ContactType: "technical", Company: "C"}
+	}
+	_, base := sc.Run(o, nil, false)
+	for _, p := range opSequence(base) {
+		for _, k := range faultKinds(p.Op) {
+			e, send := sc.run(o)
+			fired := map[string]bool{}
+			f := faultPos{p.Op, p.Occ, k}
+			e.W.Plan = planFor([]faultPos{f}, fired)
+			calls := []*env.Call{send()}
+			e.W.Plan = nil
+			calls = append(calls, send(), e.Do(env.Req{Path: env.PathMetadata}), send())
+			r.Count("requests", int64(len(calls)))
+			r.Count("fault_then_good_sequences", 1)
+			for i, c := range calls {
+				if c.Panic != "" {
+					r.Violate(core.Violation{Clause: "panic", Class: fmt.Sprintf("%s|after=%s|request=%d", sc.Name, f, i), Reason: firstLine(c.Panic) + " @ " + panicSite(c.Stack), Workload: wl, Index: idx,
+						Case: map[string]any{"scenario": sc.Name, "fault": f.String(), "request_in_sequence": i}, Observed: c.Describe()})
+				}
+			}
+		}
+	}
+	r.Eval(fmt.Sprintf("after_fault|%s|%d", sc.Name, idx))
+}
+
+// c09Tiny sends every one-byte message and many 2-4 byte messages through every decoding endpoint.
+func c09Tiny(r *core.Run, idx int, rng *rand.Rand) {
+	const wl = "tiny_payloads"
+	e := c09World()
+	e.W.NoLog = true
+	send := func(raw []byte) {
+		v := url.QueryEscape(spsim.B64(raw))
+		reqs := []env.Req{
+			{Path: env.PathSSO, Query: "SAMLRequest=" + v},
+			{Path: env.PathSLO, Query: "SAMLRequest=" + v},
+			{Method: "POST", Path: env.PathSSO, Body: "SAMLRequest=" + v},
+			{Method: "POST", Path: env.PathSLO, Body: "SAMLRequest=" + v},
+			{Method: "POST", Path: env.PathSSO, Body: "SAMLEncoding=" + url.QueryEscape(spsim.EncDeflate) + "&SAMLRequest=" + v},
+			{Method: "POST", Path: env.PathSLO, Body: "SAMLEncoding=" + url.QueryEscape(spsim.EncDeflate) + "&SAMLRequest=" + v},
+			{Method: "POST", Path: env.PathAttr, Body: string(raw), CT: "text/xml"},
+		}
+		for _, rq := range reqs {
+			c := e.Do(rq)
+			r.Count("requests", 1)
+			if c.Panic != "" {
+				r.Violate(core.Violation{Clause: "panic", Class: fmt.Sprintf("tiny|%s|%s|len=%d", rq.Method, rq.Path, len(raw)), Reason: firstLine(c.Panic) + " @ " + panicSite(c.Stack), Workload: wl, Index: idx,
+					Case: map[string]any{"payload_bytes": fmt.Sprintf("%x", raw)}, Observed: c.Describe()})
+			}
+		}
+	}
+	if idx == 0 {
+		send(nil)
+		for b := 0; b < 256; b++ {
+			send([]byte{byte(b)})
+		}
+		r.EvalBulk(257, 257)
+		r.Count("one_byte_payloads", 256)
+		return
+	}
+	for k := 0; k < 300; k++ {
+		raw := make([]byte, 2+rng.Intn(3))
+		for i := range raw {
+			raw[i] = byte(rng.Intn(256))
+		}
+		if rng.Intn(3) == 0 {
+			raw[0] = []byte{0x78, 0x1f, 0x08, 0x58}[rng.Intn(4)] // container magic numbers
+		}
+		send(raw)
+	}
+	r.Eval(fmt.Sprintf("tiny|%d", idx))
+}
+
 // ---------- native fuzzing (thorough) ----------
 
 var fuzzExecsRe = regexp.MustCompile(`execs: (\d+)`)
@@ -614,18 +698,22 @@ func init() {
 		TimeoutQuick: 8 * time.Minute, TimeoutThorough: 60 * time.Minute,
 		Build: func(c *Ctx) []core.Workload {
 			r := c.Run
-			r.Rule = "(a) every single deletion / duplication / emptying of each element and attribute of valid AuthnRequest, LogoutRequest, AttributeQuery and SOAP envelopes (unsigned, query-signed, signed then edited, edited then signed) on all transports, thorough: all pairs of such edits; (b) every SigAlg URI known to the libraries x registered key type {RSA, ECDSA, Ed25519, DSA, none} x signature shapes x both bindings; (c) every routed and unrouted path x 9 methods x missing / duplicated / malformed parameters, content types, Forwarded / Origin headers, Host values; (d) byte-level mutations of messages and of the encoded parameter; (e) SP metadata: the same edit families on EntityDescriptor documents, garbled / wrapped / PEM-armoured / non-RSA certificates, byte mutations, followed by requests naming an accepted registration; thorough (f): coverage-guided go test -fuzz on the decoders, NewServiceProvider and a whole-handler target. Monitor: recover() around ServeHTTP and NewServiceProvider, child-process death, watchdog. Distinct = structurally different inputs (by construction for the enumerations)."
+			r.Rule = "(a) every single deletion / duplication / emptying of each element and attribute of valid AuthnRequest, LogoutRequest, AttributeQuery and SOAP envelopes (unsigned, query-signed, signed then edited, edited then signed) on all transports, thorough: all pairs of such edits; (b) every SigAlg URI known to the libraries x registered key type {RSA, ECDSA, Ed25519, DSA, none} x signature shapes x both bindings; (c) every routed and unrouted path x 9 methods x missing / duplicated / malformed parameters, content types, Forwarded / Origin headers, Host values; (d) byte-level mutations of messages and of the encoded parameter; (e) SP metadata: the same edit families on EntityDescriptor documents, garbled / wrapped / PEM-armoured / non-RSA certificates, byte mutations, followed by requests naming an accepted registration; (e2) on one provider: a request during which each storage operation fails in each way, followed by the same request and a metadata request without fault; (e3) every one-byte and many 2-4 byte payloads (raw and with container magic numbers) on every decoding endpoint; thorough (f): coverage-guided go test -fuzz on the decoders, NewServiceProvider and a whole-handler target. Monitor: recover() around ServeHTTP and NewServiceProvider, child-process death, watchdog. Distinct = structurally different inputs (by construction for the enumerations)."
 			n := len(c09Bases(rand.New(rand.NewSource(11))))
 			r.Require("single_edits", 1500)
 			r.Require("grid_cells", 40)
 			r.Require("metadata_documents", 300)
 			r.Require("requests", 5000)
+			r.Require("fault_then_good_sequences", 80)
+			r.Require("one_byte_payloads", 256)
 			wls := []core.Workload{
 				{Name: "single_edits", N: n, Fn: c09Edits(false)},
 				{Name: "sigalg_keytype_grid", N: 5 * len(allSigAlgs), Fn: c09KeyGrid},
 				{Name: "endpoint_parameter_grid", N: 13 * 9, Fn: c09Endpoints},
 				{Name: "byte_mutations", N: c.Pick(44, 1100), Fn: c09Bytes},
 				{Name: "sp_metadata", N: c.Pick(6, 60), Fn: c09Metadata},
+				{Name: "requests_after_storage_faults", N: c.Pick(15, 60), Fn: c09AfterFault},
+				{Name: "tiny_payloads", N: c.Pick(4, 40), Fn: c09Tiny},
 			}
 			if c.Thorough {
 				wls = append(wls, core.Workload{Name: "edit_pairs", N: n * 16, Fn: c09Edits(true)})
